@@ -10,6 +10,7 @@ import (
 	"github.com/notaryproject/notation-core-go/revocation/result"
 	"github.com/notaryproject/notation-go/verifier/trustpolicy"
 	"github.com/notaryproject/notation-go/verifier/truststore"
+	pf "github.com/notaryproject/notation-plugin-framework-go/plugin"
 )
 
 // MemTS is an in-memory truststore.X509TrustStore keyed "type:name"; a nil slice value means "load error".
@@ -134,3 +135,39 @@ func AllLevelMaps() []LevelMap {
 	}
 	return out
 }
+
+// ScriptedPlugin is a verification plugin with scripted capabilities that reports success for whatever it is asked.
+type ScriptedPlugin struct {
+	Caps  []pf.Capability
+	Calls int
+}
+
+func (p *ScriptedPlugin) GetMetadata(ctx context.Context, req *pf.GetMetadataRequest) (*pf.GetMetadataResponse, error) {
+	return &pf.GetMetadataResponse{Name: "plug", Description: "d", Version: "1.0.0", URL: "u", SupportedContractVersions: []string{"1.0"}, Capabilities: p.Caps}, nil
+}
+func (p *ScriptedPlugin) DescribeKey(ctx context.Context, req *pf.DescribeKeyRequest) (*pf.DescribeKeyResponse, error) {
+	return nil, fmt.Errorf("not a signer")
+}
+func (p *ScriptedPlugin) GenerateSignature(ctx context.Context, req *pf.GenerateSignatureRequest) (*pf.GenerateSignatureResponse, error) {
+	return nil, fmt.Errorf("not a signer")
+}
+func (p *ScriptedPlugin) GenerateEnvelope(ctx context.Context, req *pf.GenerateEnvelopeRequest) (*pf.GenerateEnvelopeResponse, error) {
+	return nil, fmt.Errorf("not a signer")
+}
+func (p *ScriptedPlugin) VerifySignature(ctx context.Context, req *pf.VerifySignatureRequest) (*pf.VerifySignatureResponse, error) {
+	p.Calls++
+	resp := &pf.VerifySignatureResponse{VerificationResults: map[pf.Capability]*pf.VerificationResult{}}
+	for _, c := range req.TrustPolicy.SignatureVerification {
+		resp.VerificationResults[c] = &pf.VerificationResult{Success: true}
+	}
+	for _, a := range req.Signature.UnprocessedAttributes {
+		resp.ProcessedAttributes = append(resp.ProcessedAttributes, a)
+	}
+	return resp, nil
+}
+
+// ScriptedManager hands out one ScriptedPlugin for every name.
+type ScriptedManager struct{ P *ScriptedPlugin }
+
+func (m ScriptedManager) Get(ctx context.Context, name string) (pf.Plugin, error) { return m.P, nil }
+func (m ScriptedManager) List(ctx context.Context) ([]string, error)               { return []string{"plug"}, nil }
